@@ -1,4 +1,4 @@
-"""Whole-pipeline model of Model.main() for single-currency programs (coq/GenMain) against the implementation.
+"""Whole-pipeline model of Model.main() for single-currency programs (coq/GenMain2) against the implementation.
 
 Part of C01 / C04 / C05 (the quantifier over model topologies: theorems about a Gallina model of the
 whole generator, instead of one certificate per generated program).  The lead integrates it with
@@ -14,8 +14,8 @@ whole generator, instead of one certificate per generated program).  The lead in
     if (obj.get('replay') or {}).get('kind') == 'main':
         return gen_main.replay(obj)
 
-Proof: coq/GenMain/PropMain.v — theorems over ALL programs of the language of coq/GenMain/Program.v about
-the model coq/GenMain/Main.v (`build : program -> result final_system`), which assembles the booking-group
+Proof: coq/GenMain2/PropMain.v — theorems over ALL programs of the language of coq/GenMain2/Program.v about
+the model coq/GenMain2/Main.v (`build : program -> result final_system`), which assembles the booking-group
 models of coq/GenMarket, GenTax, GenAsset.
 Correspondence: programs from gen_common.ProgGen(rng).single() / .federated() (plus a stream of damaged
 variants that exercise the error paths) are rendered 1:1 into a Coq `program`; the implementation side is
@@ -32,10 +32,10 @@ import common
 from common import coq_string, coq_list, coq_nat, coq_bool, coq_option
 import gen_common
 
-PROOFS = [('GenMain', 'PropMain.v')]
-FAMILY = 'GenMain'
+PROOFS = [('GenMain2', 'PropMain.v')]
+FAMILY = 'GenMain2'
 REQUIRES = ['From SFC.Base Require Import Res Str.', 'From SFC.Gen Require Import Fx Zone.',
-            'From SFC.GenMain Require Import Program Classes Main CaseDefs Conflict.']
+            'From SFC.GenMain2 Require Import Program Classes Main CaseDefs Conflict.']
 
 
 class OutOfLanguage(Exception):
@@ -320,7 +320,7 @@ def damage(rng, prog):
 # entry points
 
 TRUSTED = [
-    'hand-written model coq/GenMain (Program.v, Classes.v, Main.v) of the sector constructors and of Model.main() up to '
+    'hand-written model coq/GenMain2 (Program.v, Classes.v, Main.v) of the sector constructors and of Model.main() up to '
     '_CreateFinalEquations for programs with one currency zone and no ExternalSector, assembling the group models of '
     'coq/GenMarket, GenTax, GenAsset; tied to the code by the whole-program correspondence of harness/gen_main.py '
     '(exception class, or every row of FinalEquations as read by the implementation\'s own EquationParser, in emission order, '
